@@ -172,6 +172,26 @@ func (s *Sched) chanOp(kind string, cases []chanCase, hasDefault bool) (int, any
 			obj = obj*31 + c.ch.id
 		}
 	}
+	rendezvous := false
+	for _, c := range cases {
+		if c.ch != nil && c.ch.cap == 0 && !c.ch.closed {
+			rendezvous = true
+			if c.send {
+				s.anySend = true
+			}
+			if hasDefault {
+				if c.send {
+					s.nbSend = true
+				} else {
+					s.nbRecv = true
+				}
+			}
+		}
+	}
+	if rendezvous && !hasDefault && s.arrive {
+		// not yet parked: a non-blocking partner operation scheduled now finds nobody
+		s.point(&op{kind: "chan.arrive", obj: obj, enabled: func() bool { return true }})
+	}
 	o := &op{kind: kind, obj: obj, cases: cases}
 	o.enabled = func() bool {
 		if hasDefault {
